@@ -35,6 +35,7 @@ package apph
 import (
 	"fmt"
 	"math/big"
+	"os"
 	"sort"
 )
 
@@ -203,8 +204,22 @@ func (e *stakeExec) monitorHook(name string, h int64, pre, post *sview) {
 	}
 }
 
+// dropProvenanceOfDeleted: once the record of a validator is gone (no stake left, purged), what was
+// unstaked from it belongs to an incarnation that no longer exists; a validator created later
+// under the same address is another one, with its own stake address
+func (e *stakeExec) dropProvenanceOfDeleted(s *sview) {
+	for _, m := range e.unstakedFrom {
+		for vv := range m {
+			if s.Vals[vv] == nil {
+				delete(m, vv)
+			}
+		}
+	}
+}
+
 func (e *stakeExec) monitorTx(c stakeCmd, h int64, v, d int, tr TxResult, fee *big.Int, pre, post *sview) {
 	where := fmt.Sprintf("height %d %s", h, c)
+	e.dropProvenanceOfDeleted(pre)
 	if tr.Code != 0 {
 		if diff := stakeRecordsEqual(pre, post); diff != "" || secVals("val", pre.Vals) != secVals("val", post.Vals) || bz(pre.Bal, d).Cmp(bz(post.Bal, d)) != 0 {
 			e.hit("failed-tx-changed-state", where+": "+diff)
@@ -240,6 +255,52 @@ func (e *stakeExec) monitorTx(c stakeCmd, h int64, v, d int, tr TxResult, fee *b
 				return
 			}
 		}
+	}
+	// "nothing can be withdrawn ... while the validator is frozen", by provenance: what a delegator
+	// has unstaked and not yet withdrawn is remembered per validator it was staked with; a
+	// withdrawal larger than everything that came from validators that are not frozen now has
+	// paid out stake of a frozen validator, whoever is that validator's stake address by now
+	if c.Kind == "withdraw" && c.Amt.Sign() > 0 {
+		if os.Getenv("OLH_DEBUG_STAKE") != "" {
+			fmt.Fprintf(os.Stderr, "DEBUG %s d=%d frozen=%v unstakedFrom=%v\n", where, d, pre.Frozen, e.unstakedFrom[d])
+		}
+		free, frozenPart := new(big.Int), new(big.Int)
+		var frozenVs []int
+		for vv, a := range e.unstakedFrom[d] {
+			if pre.Frozen[vv] {
+				frozenPart.Add(frozenPart, a)
+				frozenVs = append(frozenVs, vv)
+			} else {
+				free.Add(free, a)
+			}
+		}
+		if !e.tainted && frozenPart.Sign() > 0 && c.Amt.Cmp(free) > 0 {
+			sort.Ints(frozenVs)
+			e.hit("withdrawn-stake-of-frozen-validator", fmt.Sprintf("%s: delegator %d withdrew %s; of what it has unstaked and not yet withdrawn only %s came from validators that are not frozen, %s from frozen validators %v", where, d, c.Amt, free, frozenPart, frozenVs))
+			return
+		}
+		// pay the withdrawal out of the provenance record: unfrozen sources first
+		left := new(big.Int).Set(c.Amt)
+		for pass := 0; pass < 2 && left.Sign() > 0; pass++ {
+			for _, vv := range sortedInts(e.unstakedFrom[d]) {
+				if (pass == 0) == pre.Frozen[vv] {
+					continue
+				}
+				a := e.unstakedFrom[d][vv]
+				take := a
+				if left.Cmp(a) < 0 {
+					take = left
+				}
+				e.unstakedFrom[d][vv] = new(big.Int).Sub(a, take)
+				left = new(big.Int).Sub(left, take)
+			}
+		}
+	}
+	if c.Kind == "unstake" && c.Amt.Sign() > 0 {
+		if e.unstakedFrom[d] == nil {
+			e.unstakedFrom[d] = map[int]*big.Int{}
+		}
+		addAmt(e.unstakedFrom[d], v, c.Amt)
 	}
 	bd := new(big.Int).Sub(bz(post.Bal, d), bz(pre.Bal, d))
 	bd.Add(bd, fee)
@@ -337,6 +398,7 @@ func cloneVD(m map[[2]int]*big.Int) map[[2]int]*big.Int {
 }
 
 func (e *stakeExec) monitorEnd(h int64, pre, post *sview, guilty []int) {
+	defer e.dropProvenanceOfDeleted(post)
 	where := fmt.Sprintf("EndBlock %d", h)
 	// 0. root cause first: a validator record deleted in this EndBlock while stake is locked with
 	// the validator (a verdict in the same EndBlock would then slash the locked total only and
